@@ -5,6 +5,7 @@ use std::collections::VecDeque;
 use std::io;
 use std::pin::Pin;
 use std::sync::{Arc, Mutex};
+use std::future::Future;
 use std::task::{Context, Poll, Waker};
 use tokio::io::{AsyncRead, AsyncWrite, ReadBuf};
 use tokio::time::Instant;
@@ -37,11 +38,14 @@ pub struct PipeCfg {
     /// buffer capacity per direction (back-pressure on the writer)
     pub cap: usize,
     pub fault: Option<Fault>,
+    /// per side (0 = A, 1 = B): shutting the write half down reports NotConnected (what a socket
+    /// does once the peer has reset it); the half is closed all the same
+    pub shutdown_err: [bool; 2],
 }
 
 impl Default for PipeCfg {
     fn default() -> Self {
-        PipeCfg { chunks: [vec![], vec![]], stalls: [vec![], vec![]], cap: 1 << 20, fault: None }
+        PipeCfg { chunks: [vec![], vec![]], stalls: [vec![], vec![]], cap: 1 << 20, fault: None, shutdown_err: [false, false] }
     }
 }
 
@@ -77,6 +81,8 @@ struct Shared {
     dirs: [DirState; 2],
     broken: Broken,
     fault_fired_at: Option<Instant>,
+    /// endpoint halves not yet dropped
+    endpoints_alive: u8,
 }
 
 impl Shared {
@@ -128,7 +134,7 @@ impl PipeCtl {
     }
     /// are both endpoint halves released (dropped)?
     pub fn both_released(&self) -> bool {
-        Arc::strong_count(&self.shared) == 1
+        self.shared.lock().unwrap().endpoints_alive == 0
     }
     /// install a fault plan after construction (offsets are absolute per direction)
     pub fn set_fault(&self, f: Option<Fault>) {
@@ -166,6 +172,30 @@ pub struct Endpoint {
     shared: Arc<Mutex<Shared>>,
     /// 0 = side A (writes dir 0, reads dir 1); 1 = side B
     side: usize,
+    /// timer that wakes this endpoint's task when a stall fault is over
+    stall_sleep: Option<Pin<Box<tokio::time::Sleep>>>,
+}
+
+impl Endpoint {
+    /// while the transport is stalled: Pending (with a timer registered) until the stall is over
+    fn poll_stall(&mut self, cx: &mut Context<'_>) -> Poll<()> {
+        let until = {
+            let mut s = self.shared.lock().unwrap();
+            s.check_stall_over();
+            match s.broken {
+                Broken::Stalled(t) => t,
+                _ => return Poll::Ready(()),
+            }
+        };
+        let sl = self.stall_sleep.get_or_insert_with(|| Box::pin(tokio::time::sleep_until(until)));
+        match sl.as_mut().poll(cx) {
+            Poll::Ready(()) => {
+                self.shared.lock().unwrap().check_stall_over();
+                Poll::Ready(())
+            }
+            Poll::Pending => Poll::Pending,
+        }
+    }
 }
 
 impl std::fmt::Debug for Endpoint {
@@ -193,10 +223,10 @@ pub fn pipe(cfg: PipeCfg) -> (Endpoint, Endpoint, PipeCtl) {
         stall_left: u8::MAX,
         tap: Vec::new(),
     };
-    let shared = Arc::new(Mutex::new(Shared { cfg, dirs: [mk(), mk()], broken: Broken::No, fault_fired_at: None }));
+    let shared = Arc::new(Mutex::new(Shared { cfg, dirs: [mk(), mk()], broken: Broken::No, fault_fired_at: None, endpoints_alive: 2 }));
     let ctl = PipeCtl { shared: shared.clone() };
     LAST_CTL.with(|l| *l.borrow_mut() = Some(ctl.clone()));
-    (Endpoint { shared: shared.clone(), side: 0 }, Endpoint { shared: shared.clone(), side: 1 }, ctl)
+    (Endpoint { shared: shared.clone(), side: 0, stall_sleep: None }, Endpoint { shared: shared.clone(), side: 1, stall_sleep: None }, ctl)
 }
 
 /// one line per frame seen so far in both directions (diagnostics)
@@ -251,8 +281,11 @@ fn next_chunk(v: &[u16], i: &mut usize) -> usize {
 }
 
 impl AsyncRead for Endpoint {
-    fn poll_read(self: Pin<&mut Self>, cx: &mut Context<'_>, out: &mut ReadBuf<'_>) -> Poll<io::Result<()>> {
+    fn poll_read(mut self: Pin<&mut Self>, cx: &mut Context<'_>, out: &mut ReadBuf<'_>) -> Poll<io::Result<()>> {
         let rdir = 1 - self.side;
+        if self.as_mut().get_mut().poll_stall(cx).is_pending() {
+            return Poll::Pending;
+        }
         let mut s = self.shared.lock().unwrap();
         s.check_stall_over();
         match s.broken {
@@ -305,8 +338,11 @@ impl AsyncRead for Endpoint {
 }
 
 impl AsyncWrite for Endpoint {
-    fn poll_write(self: Pin<&mut Self>, cx: &mut Context<'_>, data: &[u8]) -> Poll<io::Result<usize>> {
+    fn poll_write(mut self: Pin<&mut Self>, cx: &mut Context<'_>, data: &[u8]) -> Poll<io::Result<usize>> {
         let wdir = self.side;
+        if self.as_mut().get_mut().poll_stall(cx).is_pending() {
+            return Poll::Pending;
+        }
         let mut s = self.shared.lock().unwrap();
         s.check_stall_over();
         match s.broken {
@@ -376,6 +412,9 @@ impl AsyncWrite for Endpoint {
         if let Some(w) = d.reader_waker.take() {
             w.wake();
         }
+        if s.cfg.shutdown_err[self.side] {
+            return Poll::Ready(Err(io::Error::new(io::ErrorKind::NotConnected, "simnet: shutdown after the peer went away")));
+        }
         Poll::Ready(Ok(()))
     }
 }
@@ -388,6 +427,7 @@ impl Drop for Endpoint {
             let other = 1 - self.side;
             s.dirs[other].buf.clear();
             s.dirs[other].reader_gone = true;
+            s.endpoints_alive = s.endpoints_alive.saturating_sub(1);
             s.wake_all();
         }
     }
@@ -453,7 +493,7 @@ pub mod strat {
     }
     pub fn pipe_cfg() -> BoxedStrategy<PipeCfg> {
         (chunks(), chunks(), stalls(), stalls(), prop_oneof![Just(1usize << 20), Just(64usize), Just(97), Just(1), Just(4096)])
-            .prop_map(|(c0, c1, s0, s1, cap)| PipeCfg { chunks: [c0, c1], stalls: [s0, s1], cap, fault: None })
+            .prop_map(|(c0, c1, s0, s1, cap)| PipeCfg { chunks: [c0, c1], stalls: [s0, s1], cap, fault: None, shutdown_err: [false, false] })
             .boxed()
     }
 }
